@@ -98,6 +98,9 @@ type Val struct {
 	Markers []string
 	// ZeroLike: nil / zero value (struct conditions and Updates(struct) skip it).
 	ZeroLike bool
+	// PerByteAlt: index into Alts of the "one bound value per byte" alternative of
+	// a byte-kind value (-1: none); admissible only at a ListCtx position.
+	PerByteAlt int
 	// InnerKey: when set, the bound values are governed by this column (inside
 	// a sub-query) instead of the slot's column.
 	InnerKey string
@@ -149,7 +152,7 @@ func one(v interface{}) [][]interface{} { return [][]interface{}{{v}} }
 // Make builds the marked value of class c for slot id. base is a fresh
 // (NewDB) handle used to build sub-query values.
 func Make(c Class, id int, base *gorm.DB) Val {
-	v := Val{Class: c, ID: id}
+	v := Val{Class: c, ID: id, PerByteAlt: -1}
 	switch c {
 	case CStr, CQuote, CDQuote, CBackslash, CQMark, CAtName, CParen, CDashes, CDollar, CUnicode, CInject:
 		s := strBody(c, id, 0)
@@ -175,7 +178,7 @@ func Make(c Class, id int, base *gorm.DB) Val {
 		for i := range b {
 			per[i] = b[i]
 		}
-		v.V, v.Alts, v.Markers = b, [][]interface{}{{b}, per}, []string{tok(id, 0)}
+		v.V, v.Alts, v.Markers, v.PerByteAlt = b, [][]interface{}{{b}, per}, []string{tok(id, 0)}, 1
 	case CRawJSON, CNetIP, CNamedBytes, CByteArray:
 		// byte-kind values that reach AddVar's reflect branch (not the []byte
 		// case, not a Valuer): one bound value, or one per byte in an expanded list
@@ -200,7 +203,7 @@ func Make(c Class, id int, base *gorm.DB) Val {
 		for i := range b {
 			per[i] = b[i]
 		}
-		v.V, v.Alts, v.Markers = val, [][]interface{}{{val}, per}, []string{tok(id, 0)}
+		v.V, v.Alts, v.Markers, v.PerByteAlt = val, [][]interface{}{{val}, per}, []string{tok(id, 0)}, 1
 	case CTime:
 		t := timeOf(id, 0)
 		v.V, v.Alts, v.Markers = t, one(t), []string{fmt.Sprintf("%04d-01-", 3000+id)}
